@@ -76,4 +76,18 @@ CLAIMS.update({
         "note": TB + " HTTP/2 and a real http.Transport against a TCP origin are not exercised (the scripted origin parses wire bytes with http.ReadResponse).",
     },
 })
+CLAIMS.update({
+    "C14": {
+        "text": "Theorems map_laws (the reference map), file_names_injective and file_names_prefix_free (for every injective encoding without '+': distinct keys get distinct paths and no key's file is a directory another key needs — any bytes, any length, prefixes, the 255 / fragment boundaries, the empty key), dir_components_fit, reserved_names_outside_alphabet. The real backends (memory, file system, encrypted, reopened between operations) and the expapi handlers are driven with seeded adversarial operation sequences and compared operation by operation with the map model, including the file names found on disk vs. the model's executable file-name function and caller-buffer mutation after Set / Get. Two known findings (expapi over memcache://, non-UTF-8 keys in the JSON listing) are listed in known_findings.json.",
+        "note": TB + " os.Root / the file system / encoding/base64 are trusted.",
+    },
+    "C15": {
+        "text": "Theorems get_returns_whole_value (from the initial state, after ANY interleaving of any number of Sets at any stage with any partial writes, abandoned at any point, Deletes and renames, a Get that opened key k reads — whatever happens afterwards — exactly a complete value passed to a Set for k, or finds the key absent), failed_set_is_invisible, visible_only_by_commit (linearisation point = the rename), set_step_list (the os.Root operations of the real `set`, regenerated from the source, are temp-file / write / sync / close / rename). PARTIAL: rename(2) atomicity, inode persistence of open descriptors and fsync durability are assumed. The harness cuts real writes at every byte with RLIMIT_FSIZE in a child process, SIGKILLs a writer, and checks concurrent Set/Get/Delete histories against register conditions (no torn, no stale, no unwritten value).",
+        "note": TB + " POSIX / kernel file-system semantics are assumed.",
+    },
+    "C17": {
+        "text": "Theorems encryption_requested_never_plaintext / option_without_usable_key_fails (model of fromURL / WithEncryption: requesting encryption yields an encrypting backend with a usable key or a failed open, never plaintext), and — over an abstract ideal AEAD — decrypt_encrypt, accepted_files_are_genuine (whatever bytes are on disk, if Get accepts them the file is exactly a genuine encryption of the returned value: altered, truncated or extended files are rejected), wrong_key_yields_nothing, same_value_different_files (given distinct nonces). PARTIAL: AES-GCM and crypto/rand are assumptions. The harness checks every way of switching encryption on, unusable keys, scans the real files for plaintext fragments, compares repeated writes, modifies every byte / truncates / extends a stored file, and reads with a wrong key and with no key.",
+        "note": TB + " Cryptographic strength is assumed (ideal AEAD, fresh nonces).",
+    },
+})
 NOT_APPLICABLE = {("C%02d" % i): "check not built yet (work in progress; DESIGN.md §10 gives the order of construction)" for i in range(1, 21)}
